@@ -139,8 +139,11 @@ def refusal_histories(ctx, digital_rf, count):
             t0 = t0 // sc_ms * sc_ms       # the hole variant: all windows in one subdirectory
         mode = ["gapped", "contU", "contC"][i % 3]
         cfg = cd.ChanConfig(n, d, fc, sc_ms // 1000, np.dtype(rng.choice(["<i2", ">f4", "<u1", ">i8"])), bool(i % 2), 1 + i % 2, mode, t0, 7, seed=i)
-        root = os.path.join(ctx.work, "chan")
-        shutil.rmtree(root, ignore_errors=True)
+        top = root = os.path.join(ctx.work, "chan")
+        shutil.rmtree(top, ignore_errors=True)
+        if i % 4 == 1:
+            # the channel lives under a long path (more than 256 characters)
+            root = os.path.join(top, *["a-directory-name-of-sixty-characters-%02d-%s" % (x, "y" * 20) for x in range(4)])
         os.makedirs(root)
         ch = cd.Channel(digital_rf, root, cfg, [cfg.params()])
         b = cfg.bound
@@ -176,7 +179,8 @@ def refusal_histories(ctx, digital_rf, count):
         ch.close()
         ch.observe([1], rng, npairs=6, nvec=1)
         s4.append(ch.scenario("refusal%d" % i))
-        shutil.rmtree(root, ignore_errors=True)
+        ch.kept = []
+        shutil.rmtree(top, ignore_errors=True)
     return s4
 
 
